@@ -8,6 +8,7 @@ reported *undecided* by the caller, never discharged and never a violation.
 """
 import ast
 import itertools
+import re
 import z3
 from .sorts import *          # noqa
 
@@ -26,7 +27,7 @@ _hq_cache = {}
 def has_quantifier(f):
     k = f.get_id()
     if k in _hq_cache:
-        return _hq_cache[k]
+        return _hq_cache[k][1]
     seen, stack, res = set(), [f], False
     while stack:
         x = stack.pop()
@@ -38,7 +39,7 @@ def has_quantifier(f):
             res = True
             break
         stack.extend(x.children())
-    _hq_cache[k] = res
+    _hq_cache[k] = (f, res)       # keeping f alive keeps its id from being reused
     return res
 
 
@@ -180,6 +181,8 @@ class Heap:
     def copy(self):
         h = Heap(self.tagname)
         h.arr, h.alloc, h.glob = dict(self.arr), self.alloc, dict(self.glob)
+        if getattr(self, '_concrete', False):
+            h._concrete = True
         return h
 
     def A(self, name, sort=None):
@@ -196,6 +199,10 @@ class Heap:
                         sort = z3.ArraySort(I, smt_sort(ty.a[0] if ty.k == 'opt' else ty))
             if sort is None:
                 raise OutOfSubset('untyped heap array ' + name)
+            if getattr(self, '_concrete', False):
+                from .concrete import _default
+                self.arr[name] = z3.K(I, _default(sort.range()))
+                return self.arr[name]
             # lazily materialised arrays share ONE initial symbol per tag so that all snapshots derived
             # from the same origin agree on untouched arrays
             self.arr[name] = z3.Const('%s@%s' % (name, self.tagname), sort)
@@ -316,7 +323,7 @@ class Engine:
     def emit(self, kind, st, goal, line=0, tag='property', extra=None):
         if self.discovery:
             return
-        oid = '%s/%s' % (self.qualname, kind)
+        oid = '%s/%s' % (self.qualname, re.sub(r'@\d+', '', kind))      # ids are stable under line shifts
         n = sum(1 for o in self.obls if o.oid == oid or o.oid.startswith(oid + '#'))
         if n:
             oid = '%s#%d' % (oid, n)
@@ -325,6 +332,8 @@ class Engine:
         return ob
 
     def feasible(self, st):
+        if any(z3.is_false(f) for f in st.pc[-3:]):
+            return False
         if not self.prune:
             return True
         # quantifier-free part only: cheap, and dropping a path needs `unsat`, which is sound on a subset
@@ -829,6 +838,8 @@ class Engine:
             scls = v.ty.a[0]
             if scls is not None and scls in SUBCLASSES.get(cname, ()):
                 return z3.BoolVal(True)
+            if scls is not None and cname in SUBCLASSES and cname not in SUBCLASSES.get(scls, ()):
+                return z3.BoolVal(False)      # unrelated classes (single inheritance in the repo)
             return isinstance_f(st.heap.A('cls'), v.t, cname)
         if v.ty.k == 'any':        # opaque foreign operand: instance of no DSL class, no scalar
             return z3.BoolVal(False)
@@ -1474,6 +1485,8 @@ class Engine:
             else:
                 self.check_raise_exit(ex, args, H0)
         self.n_normal_exits = n_norm
+        self.canaries = [Obligation('%s/canary.normal_exit_reachable#%d' % (self.qualname, i), ex.state.pc, z3.BoolVal(False), 'canary', ex.line)
+                         for i, ex in enumerate(x for x in self.exits if x.kind == 'return')]
         return self.obls
 
     def wf_param(self, H, v):
